@@ -9,10 +9,42 @@ package inspector
 //@ ghost field backing ref
 //@ ghost field released bool
 
+// JSON probing of the buffered prefix (client bytes: any well-typed decoded value): no panic, nothing but fresh
+// objects written
+//@ func (bi *BodyInspector) normalizeModelName
+//@   property C01
+//@   safety
 //@ func (bi *BodyInspector) extractModelName
-//@   trusted JSON probing of the buffered prefix (belongs to C20); assumed pure
+//@   property C01
+//@   safety
+//@   requires bi != nil
+//@   loop 1 invariant true
+//@ func (bi *BodyInspector) hasVisionContent
+//@   property C01
+//@   safety
+//@ func (bi *BodyInspector) hasCodeParameters
+//@   property C01
+//@   safety
+//@ func (bi *BodyInspector) containsCodeKeywords
+//@   property C01
+//@   safety
+//@ func (bi *BodyInspector) isSystemMessageWithCodeKeywords
+//@   property C01
+//@   safety
+//@   requires bi != nil
+//@ func (bi *BodyInspector) hasCodeInSystemPrompt
+//@   property C01
+//@   safety
+//@   requires bi != nil
+//@ func (bi *BodyInspector) hasCodeGenerationHints
+//@   property C01
+//@   safety
+//@   requires bi != nil
 //@ func (bi *BodyInspector) detectRequiredCapabilities
-//@   trusted JSON probing of the buffered prefix (belongs to C20); assumed pure
+//@   property C01
+//@   safety
+//@   requires bi != nil
+//@   loop 1 invariant caps != nil && fresh(caps)
 //@   ensures res == nil || fresh(res)
 
 //@ func (bi *BodyInspector) Inspect
